@@ -101,6 +101,11 @@ class LinkModel:
         return [p for p in self.active if p.delivered < p.number]
 
     def deliver_next(self) -> bool:
+        # receive-role requests flagged `early`: the remote node generated before the local recv_epr was executed
+        for p in self.plan:
+            if getattr(p, "early", False) and p.role == "recv" and p.delivered < p.number:
+                self.deliver(p)
+                return True
         pend = self.pending_requests()
         if not pend:
             return False
